@@ -23,7 +23,8 @@ pub struct GenParams {
     pub bulk: bool,
     pub multi_value: bool,
     pub tail_call: bool,
-    /// 0 none, 1 full, 2 partial, 3 malformed
+    /// 0 none, 1 full, 2 partial, 3 malformed, 4 well-formed but with broken references (out-of-range
+    /// indices, local names for imported functions / for locals that do not exist)
     pub names: u8,
     /// 0 none, 1 well-formed, 2 well-formed with a prior walrus entry
     pub producers: u8,
@@ -60,7 +61,7 @@ impl GenParams {
             bulk: rng.chance(1, 2),
             multi_value: rng.chance(1, 2),
             tail_call: rng.chance(1, 4),
-            names: rng.below(4) as u8,
+            names: rng.below(5) as u8,
             producers: rng.below(3) as u8,
             n_customs: if rng.chance(1, 2) { 0 } else { rng.range(1, 6) as u32 },
             plant_errors: 0,
@@ -1650,8 +1651,9 @@ pub fn generate(p: &GenParams) -> Generated {
     }
     // name section
     match p.names {
-        1 | 2 => {
+        1 | 2 | 4 => {
             let partial = p.names == 2;
+            let broken = p.names == 4;
             let mut ns = we::NameSection::new();
             if !partial || rng.bool() {
                 ns.module("gen-module");
@@ -1662,8 +1664,21 @@ pub fn generate(p: &GenParams) -> Generated {
                     fm.append(f, &format!("func_{}", f));
                 }
             }
+            if broken {
+                fm.append(n_total_funcs + 3, "ghost_function");
+            }
             ns.functions(&fm);
             let mut lm = we::IndirectNameMap::new();
+            if broken {
+                // what emscripten is known to leave behind: names for locals of imported functions
+                for f in 0..n_imp_funcs {
+                    let mut nm = we::NameMap::new();
+                    nm.append(0, "imp_arg0");
+                    nm.append(1, "");
+                    nm.append(7, "imp_arg7");
+                    lm.append(f, &nm);
+                }
+            }
             for k in 0..p.n_funcs {
                 if partial && rng.bool() {
                     continue;
@@ -1673,7 +1688,16 @@ pub fn generate(p: &GenParams) -> Generated {
                 for (i, _) in sig.0.iter().enumerate() {
                     nm.append(i as u32, &format!("p{}", i));
                 }
+                if broken {
+                    // a local that the function does not have (also for functions with no locals at all)
+                    nm.append(sig.0.len() as u32 + 40, "ghost_local");
+                }
                 lm.append(n_imp_funcs + k, &nm);
+            }
+            if broken {
+                let mut nm = we::NameMap::new();
+                nm.append(0, "nobody");
+                lm.append(n_total_funcs + 5, &nm);
             }
             ns.locals(&lm);
             if !partial {
@@ -1681,30 +1705,48 @@ pub fn generate(p: &GenParams) -> Generated {
                 for (i, _) in sigs.iter().enumerate() {
                     tm.append(i as u32, &format!("type_{}", i));
                 }
+                if broken {
+                    tm.append(sigs.len() as u32 + 9, "ghost_type");
+                }
                 ns.types(&tm);
                 let mut tbm = we::NameMap::new();
                 for (i, _) in tables.iter().enumerate() {
                     tbm.append(i as u32, &format!("table_{}", i));
+                }
+                if broken {
+                    tbm.append(tables.len() as u32 + 2, "ghost_table");
                 }
                 ns.tables(&tbm);
                 let mut mm = we::NameMap::new();
                 for (i, _) in mems.iter().enumerate() {
                     mm.append(i as u32, &format!("mem_{}", i));
                 }
+                if broken {
+                    mm.append(mems.len() as u32 + 1, "ghost_memory");
+                }
                 ns.memories(&mm);
                 let mut gm = we::NameMap::new();
                 for (i, _) in globals.iter().enumerate() {
                     gm.append(i as u32, &format!("global_{}", i));
+                }
+                if broken {
+                    gm.append(globals.len() as u32 + 4, "ghost_global");
                 }
                 ns.globals(&gm);
                 let mut em = we::NameMap::new();
                 for (i, _) in elems.iter().enumerate() {
                     em.append(i as u32, &format!("elem_{}", i));
                 }
+                if broken {
+                    em.append(elems.len() as u32 + 6, "ghost_elem");
+                }
                 ns.elements(&em);
                 let mut dm = we::NameMap::new();
                 for (i, _) in data_segs.iter().enumerate() {
                     dm.append(i as u32, &format!("data_{}", i));
+                }
+                if broken {
+                    dm.append(data_segs.len() as u32 + 8, "ghost_data");
                 }
                 ns.data(&dm);
             }
